@@ -19,7 +19,7 @@ META = dict(
                  "reactions, flows 0..2 (sum <= 5)",
     ),
     outside=["siphon_persistence_condition (numpy semiflows)", "Koenig / scaled / borrow realizability variants",
-             "max_size-limited siphon search", "networks beyond the bounds; search limits max_states/max_depth are never "
+             "networks beyond the bounds; search limits max_states/max_depth are never "
              "reached inside the bounds"],
     stubs=[],
     assumptions=["siphon/trap harness on graph input: the bipartite DiGraph carries the complete species x reaction arc "
@@ -84,17 +84,24 @@ def h_siphons_graph(E, ns, nr, unimol=False):
     sip = find_siphons(G)
     trp = find_traps(G)
     _judge_sets(E, sp, nr, pres_r, pres_p, sip, trp)
+    for ms in (1, 2):
+        if ms < ns:
+            _judge_sets(E, sp, nr, pres_r, pres_p, find_siphons(G, max_size=ms), find_traps(G, max_size=ms), max_size=ms,
+                        tag="-up-to-max-size")
 
 
-def _judge_sets(E, sp, nr, pres_r, pres_p, sip, trp):
+def _judge_sets(E, sp, nr, pres_r, pres_p, sip, trp, max_size=None, tag=""):
     ns = len(sp)
     for kind, got in (("siphon", sip), ("trap", trp)):
         got_sets = [frozenset(sp.index(x) for x in S) for S in got]
         minimal = _oracle_sets(ns, nr, pres_r, pres_p, kind)
         bad = [len(got_sets) != len(set(got_sets))]
         for T, f in minimal.items():
+            if max_size is not None and len(T) > max_size:
+                bad.append(T in got_sets)
+                continue
             bad.append(NOT(f) if T in got_sets else f)
-        E.check(OR(bad), kind + "s-are-the-minimal-sets", dict(returned=[sorted(S) for S in got]))
+        E.check(OR(bad), kind + "s-are-the-minimal-sets" + tag, dict(returned=[sorted(S) for S in got], max_size=max_size))
     E.note(nontrivial=bool(sip) or bool(trp))
     E.observe((sorted(sorted(S) for S in sip), sorted(sorted(S) for S in trp)))
 
@@ -121,6 +128,12 @@ def h_siphons_hg(E, ns, nr, cmax=1):
     pr = {(j, k): pres_r[j, i] for j in range(nr) for k, i in enumerate(idx)}
     pp = {(j, k): pres_p[j, i] for j in range(nr) for k, i in enumerate(idx)}
     _judge_sets(E, present, nr, pr, pp, find_siphons(hg), find_traps(hg))
+    from synkit.CRN.Petri.analyzer import PetriAnalyzer
+
+    an = PetriAnalyzer(hg).compute_siphons_traps()
+    key = lambda L: sorted(sorted(S) for S in L)
+    E.check(key(an.siphons) != key(find_siphons(hg)) or key(an.traps) != key(find_traps(hg)), "analyzer-wrapper-reports-the-same-sets",
+            dict(siphons=key(an.siphons), traps=key(an.traps)))
 
 
 def h_fire(E, npl):
